@@ -240,6 +240,22 @@ def run(chk):
         if run_.outcome not in ('done', 'quiescent'):
             chk.violation('writer:outcome:%s' % run_.outcome, 'scenario %s (seed %d) ended as %s'
                           % (json.dumps(spec), chk.seed * 53 + j, run_.outcome), {'spec': spec})
+    # ---- bursts larger than the networking thread's 300-packet write batch, queued ahead of a non-immediate disconnect:
+    #      "sends everything queued before it" has no upper bound
+    for j in range(3 if quick else 24):
+        r_ = random.Random(chk.seed * 7919 + j)
+        n1, n2 = r_.choice([(301, 0), (330, 25), (200, 140), (620, 0)]) if j > 0 else (320, 0)
+        users = {'u2': [('q', k + 1, r_.choice([3, 9])) for k in range(n1)] + [('disc',)]}
+        if n2:
+            users['u3'] = [('q', 1000 + k, 4) for k in range(n2)]
+        spec = {'users': users, 'thr': r_.choice([None, 64]), 'enc': False}
+        pol = vsched.SequentialPolicy() if j % 2 == 0 else vsched.RandomPolicy(chk.seed * 59 + j, switch_prob=0.02)
+        run_ = execute(spec, pol, j)
+        chk.traces += 1
+        chk.case(('burst', j))
+        traces.append({'ev': writer_events(run_), 'spec': {'users': {u: len(p) for u, p in users.items()}, 'burst': True}, 'seed': 'burst%d' % j})
+        if run_.outcome not in ('done', 'quiescent'):
+            chk.violation('writer:outcome:%s' % run_.outcome, 'burst scenario %d+%d queued writes ended as %s' % (n1, n2, run_.outcome), {'n': [n1, n2]})
     # ---- validate
     shards = 8
     per = (len(traces) + shards - 1) // shards
